@@ -213,7 +213,7 @@ async def pair_scenario(loop, case):
 
 class C10(EngineProp):
     id = 'C10'
-    lean_modules = ['RSocketModel.Props.C10']
+    lean_modules = ['RSocketModel.Props.C10', 'RSocketModel.Props.C12Source']
     profiles = ['legal', 'cancel', 'quiesce']
     technique = 'Lean 4 proof (table/cache membership invariant of the engine model) + event-level differential correspondence incl. final table and fragment cache'
     level_text = ('c10_channel_both_closed_not_registered (state invariant over every reachable state: a registered handler never has both directions closed), c10_channel_second_direction, c10_rr_requester_response, c10_stream_requester_terminal, c10_responder_cancelled, c10_local_endings, c10_lost_clears and c10_id_reusable are kernel-checked on the engine model; the model is replayed on the entry-point sequence observed from a real endpoint and its final stream table and fragment cache are compared; the direct oracle computes which interactions terminated and requires them absent from the real table/cache, then re-uses their ids.')
